@@ -13,7 +13,10 @@ E_ARG, E_TYPE, E_DUP = 29, 48, 56
 INT_DOM = [0, 1, 2, 3, 5, 7, -1]
 FLT_DOM = [0.5, 1.5, 2.25, -3.0]
 STR_DOM = [b"", b"a", b"bb", b"needle", b"a b", b"Abc"]
-VARS = [("xi", "i"), ("xj", "i"), ("xb", "b"), ("xf", "f"), ("xs", "s"), ("xt", "s")]
+VARS0 = [("xi", "i"), ("xj", "i"), ("xb", "b"), ("xf", "f"), ("xs", "s"), ("xt", "s")]
+# the same, with the names of built-in modules (which the rules do not import): externals and module structures share the
+# scanner's object table
+VARS_MOD = [("math", "i"), ("pe", "i"), ("console", "b"), ("hash", "f"), ("time", "s"), ("string", "s")]
 
 
 def probes_for(name, typ):
@@ -69,6 +72,7 @@ def fmt(typ, v):
 def build_case(seed_cid):
     seed, cid = seed_cid
     rng = random.Random(seed)
+    VARS = VARS0 if rng.random() < 0.75 else VARS_MOD
     lines = ["cnew 0"]
     expect = []          # per emitted op that returns a code or a scan: ("rc", want) / ("scan", env copy) / None
     comp = {}            # name -> (type, value)
